@@ -13,6 +13,14 @@ func installHooks(s *core.Sim, on bool) {
 	if s == nil {
 		store.SimSetDeleteParallelThreshold(10000)
 	}
+	if s == nil {
+		store.SimAutoYield, store.SimLockDepth = nil, nil
+		hsync.SimAutoYield, hsync.SimLockDepth = nil, nil
+	} else {
+		// the mechanically inserted park points (sim/autoyield); live only when the run says so
+		store.SimAutoYield, store.SimLockDepth = s.AutoYield, s.LockDepth
+		hsync.SimAutoYield, hsync.SimLockDepth = s.AutoYield, s.LockDepth
+	}
 	if s == nil || !on {
 		store.SimHook.Yield = nil
 		hsync.SimHook.Yield, hsync.SimHook.Acquire, hsync.SimHook.Release = nil, nil, nil
